@@ -52,6 +52,7 @@ package listz
 
 //@ func NewDoubly
 //@   ensures fresh(result) && result.root.next == result.root && result.root.prev == result.root && result.len == 0 && result.root.list == nil
+//@   ensures[seq] dSeq(result) && result.len == 0
 
 //@ func DList.Len
 //@   inline
@@ -60,11 +61,15 @@ package listz
 //@   noalloc
 //@   requires l != nil
 //@   ensures result == ite(l.len == 0, nil, l.root.next)
+//@   requires[seq] dInv(l)
+//@   ensures[seq] result == ite(l.len == 0, nil, l.seq[1])
 
 //@ func DList.Back
 //@   noalloc
 //@   requires l != nil
 //@   ensures result == ite(l.len == 0, nil, l.root.prev)
+//@   requires[seq] dInv(l)
+//@   ensures[seq] result == ite(l.len == 0, nil, l.seq[l.len])
 
 //@ func DList.lazyInit
 //@   noalloc
@@ -153,18 +158,29 @@ package listz
 //@   ensures result == old(e.Value) && wf(l)
 //@   ensures old(e.list) == l ==> (e.next == nil && e.prev == nil && e.list == nil && l.len == old(l.len) - 1 && ((old(e.prev) != e && old(e.next) != e) ==> (old(e.prev).next == old(e.next) && old(e.next).prev == old(e.prev))))
 //@   ensures old(e.list) != l ==> (nodesUnchanged() && l.len == old(l.len))
+//@   requires[seq] dInv(l)
+//@   modifies[seq] l.seq, anyof(DNode.pos)
+//@   ensures[seq] dInv(l)
+//@   ensures[seq] old(e.list) == l ==> forall k in 0..l.len+1: l.seq[k] == ite(k < old(e.pos), old(l.seq[k]), old(l.seq[k+1]))
+//@   ensures[seq] old(e.list) != l ==> (l.root.next != nil ==> forall k in 0..l.len+1: l.seq[k] == old(l.seq[k]))
 
 //@ func DList.PushFront
 //@   requires wf(l) && (l.root.next == nil ==> l.len == 0) && l.len < 9223372036854775807
 //@   modifies l.root.next, l.root.prev, l.root.next.prev, l.len
 //@   ensures fresh(result) && result.Value == v && result.list == l && l.root.next == result && result.prev == l.root && l.len == old(l.len) + 1 && wf(l)
 //@   ensures result.next == ite(old(l.root.next) == nil, l.root, old(l.root.next))
+//@   requires[seq] dInv(l)
+//@   modifies[seq] l.seq, anyof(DNode.pos), l.root.pos
+//@   ensures[seq] dSeq(l) && l.seq[1] == result && forall k in 1..old(l.len)+1: l.seq[k+1] == old(l.seq[k])
 
 //@ func DList.PushBack
 //@   requires wf(l) && (l.root.next == nil ==> l.len == 0) && l.len < 9223372036854775807
 //@   modifies l.root.next, l.root.prev, l.root.prev.next, l.len
 //@   ensures fresh(result) && result.Value == v && result.list == l && l.root.prev == result && result.next == l.root && l.len == old(l.len) + 1 && wf(l)
 //@   ensures result.prev == ite(old(l.root.next) == nil, l.root, old(l.root.prev))
+//@   requires[seq] dInv(l)
+//@   modifies[seq] l.seq, anyof(DNode.pos), l.root.pos
+//@   ensures[seq] dSeq(l) && l.seq[l.len] == result && forall k in 1..old(l.len)+1: l.seq[k] == old(l.seq[k])
 
 //@ func DList.InsertBefore
 //@   requires wf(l) && mark != nil && l.len < 9223372036854775807
@@ -172,6 +188,11 @@ package listz
 //@   ensures wf(l)
 //@   ensures mark.list != l ==> (result == nil && nodesUnchanged() && l.len == old(l.len))
 //@   ensures mark.list == l ==> (fresh(result) && result.Value == v && result.list == l && result.next == mark && mark.prev == result && result.prev == old(mark.prev) && old(mark.prev).next == result && l.len == old(l.len) + 1)
+//@   requires[seq] dInv(l)
+//@   modifies[seq] l.seq, anyof(DNode.pos)
+//@   ensures[seq] dInv(l)
+//@   ensures[seq] mark.list == l ==> (result.pos == old(mark.pos) && forall k in 0..l.len+1: l.seq[k] == ite(k < old(mark.pos), old(l.seq[k]), ite(k == old(mark.pos), result, old(l.seq[k-1]))))
+//@   ensures[seq] (mark.list != l && l.root.next != nil) ==> forall k in 0..l.len+1: l.seq[k] == old(l.seq[k])
 
 //@ func DList.InsertAfter
 //@   requires wf(l) && mark != nil && l.len < 9223372036854775807
@@ -179,18 +200,29 @@ package listz
 //@   ensures wf(l)
 //@   ensures mark.list != l ==> (result == nil && nodesUnchanged() && l.len == old(l.len))
 //@   ensures mark.list == l ==> (fresh(result) && result.Value == v && result.list == l && result.prev == mark && mark.next == result && result.next == old(mark.next) && old(mark.next).prev == result && l.len == old(l.len) + 1)
+//@   requires[seq] dInv(l)
+//@   modifies[seq] l.seq, anyof(DNode.pos)
+//@   ensures[seq] dInv(l)
+//@   ensures[seq] mark.list == l ==> (result.pos == old(mark.pos) + 1 && forall k in 0..l.len+1: l.seq[k] == ite(k <= old(mark.pos), old(l.seq[k]), ite(k == old(mark.pos) + 1, result, old(l.seq[k-1]))))
+//@   ensures[seq] (mark.list != l && l.root.next != nil) ==> forall k in 0..l.len+1: l.seq[k] == old(l.seq[k])
 
 //@ func DList.PushFrontNode
 //@   noalloc
 //@   requires wf(l) && (l.root.next == nil ==> l.len == 0) && l.len < 9223372036854775807 && e != nil && e != l.root && e.list == nil
 //@   modifies l.root.next, l.root.prev, l.root.next.prev, l.len, e.next, e.prev, e.list
 //@   ensures e.list == l && l.root.next == e && e.prev == l.root && l.len == old(l.len) + 1 && wf(l)
+//@   requires[seq] dInv(l)
+//@   modifies[seq] l.seq, anyof(DNode.pos), l.root.pos
+//@   ensures[seq] dSeq(l) && l.seq[1] == e && forall k in 1..old(l.len)+1: l.seq[k+1] == old(l.seq[k])
 
 //@ func DList.PushBackNode
 //@   noalloc
 //@   requires wf(l) && (l.root.next == nil ==> l.len == 0) && l.len < 9223372036854775807 && e != nil && e != l.root && e.list == nil
 //@   modifies l.root.next, l.root.prev, l.root.prev.next, l.len, e.next, e.prev, e.list
 //@   ensures e.list == l && l.root.prev == e && e.next == l.root && l.len == old(l.len) + 1 && wf(l)
+//@   requires[seq] dInv(l)
+//@   modifies[seq] l.seq, anyof(DNode.pos), l.root.pos
+//@   ensures[seq] dSeq(l) && l.seq[l.len] == e && forall k in 1..old(l.len)+1: l.seq[k] == old(l.seq[k])
 
 //@ func DList.InsertNodeBefore
 //@   noalloc
@@ -199,6 +231,11 @@ package listz
 //@   ensures wf(l)
 //@   ensures old(mark.list) != l ==> (nodesUnchanged() && l.len == old(l.len))
 //@   ensures old(mark.list) == l ==> (e.list == l && e.next == mark && mark.prev == e && e.prev == old(mark.prev) && old(mark.prev).next == e && l.len == old(l.len) + 1)
+//@   requires[seq] dInv(l)
+//@   modifies[seq] l.seq, anyof(DNode.pos)
+//@   ensures[seq] dInv(l)
+//@   ensures[seq] old(mark.list) == l ==> (e.pos == old(mark.pos) && forall k in 0..l.len+1: l.seq[k] == ite(k < old(mark.pos), old(l.seq[k]), ite(k == old(mark.pos), e, old(l.seq[k-1]))))
+//@   ensures[seq] (old(mark.list) != l && l.root.next != nil) ==> forall k in 0..l.len+1: l.seq[k] == old(l.seq[k])
 
 //@ func DList.InsertNodeAfter
 //@   noalloc
@@ -207,6 +244,11 @@ package listz
 //@   ensures wf(l)
 //@   ensures old(mark.list) != l ==> (nodesUnchanged() && l.len == old(l.len))
 //@   ensures old(mark.list) == l ==> (e.list == l && e.prev == mark && mark.next == e && e.next == old(mark.next) && old(mark.next).prev == e && l.len == old(l.len) + 1)
+//@   requires[seq] dInv(l)
+//@   modifies[seq] l.seq, anyof(DNode.pos)
+//@   ensures[seq] dInv(l)
+//@   ensures[seq] old(mark.list) == l ==> (e.pos == old(mark.pos) + 1 && forall k in 0..l.len+1: l.seq[k] == ite(k <= old(mark.pos), old(l.seq[k]), ite(k == old(mark.pos) + 1, e, old(l.seq[k-1]))))
+//@   ensures[seq] (old(mark.list) != l && l.root.next != nil) ==> forall k in 0..l.len+1: l.seq[k] == old(l.seq[k])
 
 //@ func DList.MoveToFront
 //@   noalloc
@@ -215,6 +257,11 @@ package listz
 //@   ensures wf(l) && e.list == old(e.list) && l.len == old(l.len)
 //@   ensures old(e.list) != l ==> nodesUnchanged()
 //@   ensures old(e.list) == l ==> (l.root.next == e && e.prev == l.root)
+//@   requires[seq] dInv(l)
+//@   modifies[seq] l.seq, anyof(DNode.pos)
+//@   ensures[seq] dInv(l)
+//@   ensures[seq] old(e.list) == l ==> (l.seq[1] == e && forall k in 1..l.len+1: (k < old(e.pos) ==> l.seq[k+1] == old(l.seq[k])) && (k > old(e.pos) ==> l.seq[k] == old(l.seq[k])))
+//@   ensures[seq] (old(e.list) != l && l.root.next != nil) ==> forall k in 0..l.len+1: l.seq[k] == old(l.seq[k])
 
 //@ func DList.MoveToBack
 //@   noalloc
@@ -223,6 +270,11 @@ package listz
 //@   ensures wf(l) && e.list == old(e.list) && l.len == old(l.len)
 //@   ensures old(e.list) != l ==> nodesUnchanged()
 //@   ensures old(e.list) == l ==> (l.root.prev == e && e.next == l.root)
+//@   requires[seq] dInv(l)
+//@   modifies[seq] l.seq, anyof(DNode.pos)
+//@   ensures[seq] dInv(l)
+//@   ensures[seq] old(e.list) == l ==> (l.seq[l.len] == e && forall k in 1..l.len+1: (k < old(e.pos) ==> l.seq[k] == old(l.seq[k])) && (k > old(e.pos) ==> l.seq[k-1] == old(l.seq[k])))
+//@   ensures[seq] (old(e.list) != l && l.root.next != nil) ==> forall k in 0..l.len+1: l.seq[k] == old(l.seq[k])
 
 //@ func DList.MoveBefore
 //@   noalloc
@@ -231,6 +283,11 @@ package listz
 //@   ensures wf(l) && e.list == old(e.list) && l.len == old(l.len)
 //@   ensures (old(e.list) != l || e == mark || old(mark.list) != l) ==> nodesUnchanged()
 //@   ensures (old(e.list) == l && e != mark && old(mark.list) == l) ==> (e.next == mark && mark.prev == e)
+//@   requires[seq] dInv(l)
+//@   modifies[seq] l.seq, anyof(DNode.pos)
+//@   ensures[seq] dInv(l)
+//@   ensures[seq] (old(e.list) == l && e != mark && old(mark.list) == l) ==> (mark.pos == e.pos + 1 && l.seq[e.pos] == e)
+//@   ensures[seq] ((old(e.list) != l || e == mark || old(mark.list) != l) && l.root.next != nil) ==> forall k in 0..l.len+1: l.seq[k] == old(l.seq[k])
 
 //@ func DList.MoveAfter
 //@   noalloc
@@ -239,6 +296,11 @@ package listz
 //@   ensures wf(l) && e.list == old(e.list) && l.len == old(l.len)
 //@   ensures (old(e.list) != l || e == mark || old(mark.list) != l) ==> nodesUnchanged()
 //@   ensures (old(e.list) == l && e != mark && old(mark.list) == l) ==> (e.prev == mark && mark.next == e)
+//@   requires[seq] dInv(l)
+//@   modifies[seq] l.seq, anyof(DNode.pos)
+//@   ensures[seq] dInv(l)
+//@   ensures[seq] (old(e.list) == l && e != mark && old(mark.list) == l) ==> (e.pos == mark.pos + 1 && l.seq[e.pos] == e)
+//@   ensures[seq] ((old(e.list) != l || e == mark || old(mark.list) != l) && l.root.next != nil) ==> forall k in 0..l.len+1: l.seq[k] == old(l.seq[k])
 
 // ---------------------------------------------------------------------------------------------------------------
 // SList: the list is a SEQUENCE of nodes. Ghost field nodes holds it (nodes[0..len) are the nodes from head to tail);
